@@ -58,11 +58,24 @@ structure WF where
   unresolved         : List Str
 deriving Repr
 
+/-- the targets a schema object's `discriminator.mapping` names (they are references too, although no
+`$ref` keyword carries them). -/
+def ownMappingTargets (kvs : List (Str × Json)) : List Str :=
+  match Json.oget "discriminator".toList kvs with
+  | some (.obj d) =>
+    (match Json.oget "mapping".toList d with
+     | some (.obj m) => m.filterMap fun p => match p.2 with | .str r => some r | _ => none
+     | _ => [])
+  | _ => []
+
+/-- every `discriminator.mapping` target anywhere inside a schema. -/
+def mappingTargets (s : Json) : List Str := Schema.collect ownMappingTargets s
+
 def check (doc : Json) : WF :=
   let comps := components doc
   let ops := operations doc
   let schemas := (comps.map Prod.snd) ++ ops.flatMap (fun o => opSchemas o.2.2)
-  let allRefs := schemas.flatMap Schema.refs
+  let allRefs := schemas.flatMap Schema.refs ++ schemas.flatMap mappingTargets
   let bad := allRefs.filter fun r => !(Schema.refResolves comps r)
   let pathOK := ops.all fun o =>
     let vars := extractPathParams o.1
